@@ -1,6 +1,6 @@
 """C19 cases: num_traits FromPrimitive / ToPrimitive / AsPrimitive."""
 from .common import *
-from .c14 import float_case, int_case, FMT, exponent_sweep
+from .c14 import float_case, int_case, FMT, exponent_sweep, bound_fractions
 
 PRIMS = {"u8": 8, "u16": 16, "u32": 32, "u64": 64, "u128": 128, "usize": 64,
          "i8": 8, "i16": 16, "i32": 32, "i64": 64, "i128": 128, "isize": 64}
@@ -55,6 +55,11 @@ def gen(rng, tier):
         W = w * n
         if n > 40:
             continue
+        if W <= 64:
+            for s in "ui":
+                for fmt in ("f32", "f64"):
+                    for f in bound_fractions(fmt, W):
+                        yield f"nt_from_{fmt} {s}{cfg} {hx(f)}", "bound-fraction"
         for _ in range(reps):
             for s in "ui":
                 for p in PRIMS:
